@@ -126,6 +126,25 @@ def check_greedy(run, A):
             if is_call_to(fl, 'method:reshape'):
                 recv = call_arg(fl, 0)          # NOT stripped: a .copy() here would decouple the view
                 ok_view = retire_row is not None and _view_root(retire_row[0].term.args[0]) is recv
+                # `reshape(*F, K * K)` merges the last two axes without copying only for a C-contiguous matrix; for anything else (a `.T`
+                # view, a slice, the einsum output of a caller) numpy silently returns a COPY and the retired entries never reach the
+                # flattened array.  Hence on every path the reshaped matrix is a fresh C-ordered array.
+                if ok_view:
+                    alts = unwrap_gamma(recv)
+                    def c_ordered(x):
+                        # ndarray.copy() defaults to order='C'; np.copy / np.array default to order='K' (keep the layout of the source)
+                        order = call_arg(x, 1 if is_call_to(x, 'method:copy', 'numpy.copy') else None, 'order')
+                        ov = const_val(order) if order is not None else NOVAL
+                        if is_call_to(x, 'method:copy'):
+                            return order is None or ov == 'C'
+                        if is_call_to(x, 'numpy.copy', 'numpy.array'):
+                            return ov == 'C'
+                        return is_call_to(x, 'numpy.ascontiguousarray')
+                    loose = [x for x in alts if not c_ordered(x)]
+                    run.check(not loose, 'R-SEL', 'greedy assignment: the flattened matrix is a view (the reshaped matrix is C-contiguous on every path)', fn.loc(fl.node), '',
+                              'on some path the matrix that is reshaped to (..., K*K) is not a fresh C-ordered array (e.g. the caller\'s array when a copy flag is off): '
+                              'reshape of a non-contiguous array copies, so retired rows / columns are not seen by argmax and the same pair is picked K times',
+                              construct=f'R-SEL::{q}::view-contiguous')
         run.check(ok_view, 'R-SEL', 'greedy assignment: arg-max sees the retired entries (flattened view of the same matrix)', fn.loc(unravel.node), '',
                   'the matrix searched by argmax is not a view of the matrix in which rows / columns are retired', construct=f'R-SEL::{q}::view')
     # K picks per matrix
